@@ -99,7 +99,7 @@ func (c *Ctx) simJob(t *Target, g *SynGrammar, r *RefLR, name string, run SymRun
 	st := *t
 	st.Harness = append(append([]string{}, t.Harness...), f, VerifRoot+"/harness/genparser/tablesim.go")
 	run.Harness = "VerifTableSim"
-	run.LoopBound = 600
+	run.LoopBound = 4000
 	run.ForkFuncs = nil
 	run.Params = nil
 	return Job{
@@ -174,7 +174,7 @@ func checkC12(c *Ctx) {
 	// quick tier: short sequences (the table-simulation job of every variant is unbounded anyway)
 	maxN := 3
 	if !c.Quick() {
-		maxN = 6
+		maxN = 5
 	}
 	type variant struct {
 		tag   string
@@ -190,7 +190,7 @@ func checkC12(c *Ctx) {
 	}
 	grammars := []*SynGrammar{SynCorpus[0], SynCorpus[2], ConflictCorpus[0]}
 	if !c.Quick() {
-		grammars = append(grammars, SynCorpus[1], SynCorpus[3], ConflictCorpus[1])
+		grammars = append(grammars, SynCorpus[3], ConflictCorpus[1])
 	}
 	var jobs []Job
 	for _, g0 := range grammars {
@@ -247,7 +247,7 @@ func checkC12(c *Ctx) {
 func (c *Ctx) lexerFlagJobs() []Job {
 	maxN := 2
 	if !c.Quick() {
-		maxN = 4
+		maxN = 3
 	}
 	var jobs []Job
 	saved := LexSpecs
